@@ -321,6 +321,16 @@ def shapes(tier, seed):
     for which in ("UCCSD", "UCCGD", "UpCCGSD"):
         for utd in (False, True):
             out.append(Shape(f"ansatz/{which}/4q/utd{int(utd)}", h_ansatz, dict(which=which, utd=utd), modules=MODS, max_paths=64))
+    # open-shell references and an odd number of orbitals (index permutations that cancel on closed-shell H2-like cases)
+    out.append(Shape("ansatz/UpCCGSD/4q/doublet/utd1", h_ansatz, dict(which="UpCCGSD", n_mos=2, n_electrons=3, spin=1, utd=True, signs=(1, -1)),
+                     modules=MODS, max_paths=16))
+    out.append(Shape("ansatz/UpCCGSD/4q/doublet/utd0", h_ansatz, dict(which="UpCCGSD", n_mos=2, n_electrons=1, spin=1, utd=False, signs=(1, -1)),
+                     modules=MODS, max_paths=16))
+    out.append(Shape("ansatz/UCCSD/4q/doublet/utd1", h_ansatz, dict(which="UCCSD", n_mos=2, n_electrons=3, spin=1, utd=True, signs=(1, -1)),
+                     modules=MODS, max_paths=16))
+    if not quick:
+        out.append(Shape("ansatz/UpCCGSD/6q/utd1", h_ansatz, dict(which="UpCCGSD", n_mos=3, n_electrons=2, spin=0, utd=True, signs=(1, -1)),
+                         modules=MODS, max_paths=16))
     out.append(Shape("ansatz/pUCCD/2q", h_ansatz, dict(which="pUCCD"), modules=MODS, max_paths=64))
     out.append(Shape("ansatz/pUCCD/3q", h_ansatz, dict(which="pUCCD", n_mos=3), modules=MODS, max_paths=64))
     out.append(Shape("ansatz/UCC1", h_ansatz, dict(which="UCC1"), modules=MODS))
